@@ -10,10 +10,10 @@ apply = '--apply' in sys.argv
 deact = set()          # (file, line)
 excepts = collections.defaultdict(list)   # func key -> [names]
 for l in out:
-    m = re.match(r'\s+(failed|unknown:\S+)\s+(\S.*?)\s+@(\S*)\s*$', l)
+    m = re.match(r'\s+(failed|unknown:\S+)\s+(\S.*?)\s+@(\S*)(?:\s+~(\S*))?\s*$', l)
     if not m:
         continue
-    name, pos = m.group(2), m.group(3)
+    name, pos, stable = m.group(2), m.group(3), m.group(4) or ''
     # function key = up to the last '/<kind>'
     mm = re.match(r'(.*?)/((?:typeassert|index|slice|nilmap|nilderef|div|panic|nilfunc|nilrecv|makeslice|ifacecmp|mapkey|nilbox|precondition|closure-precondition|frame|ensures|invariant-entry|invariant-preserved|decreases|autoinv-entry|autoinv-preserved)\b.*)$', name)
     if not mm:
@@ -27,6 +27,8 @@ for l in out:
         short = rest.split('[')[0] if kind not in ('frame',) else rest
         if kind in ('precondition', 'closure-precondition'):
             short = rest.split('[')[0]
+        if stable:
+            short = stable   # kind@<hash of the source line>#k: survives insertions elsewhere in the function
         excepts[fn].append(short)
 print("clauses to deactivate:", len(deact), " functions with excepts:", len(excepts))
 if not apply:
